@@ -45,6 +45,10 @@ def _world(prog, extra_validators=None, meta_schema=None, version=None, id_key="
              "kx": kw("kx", raises=PyRaise("Boom", "keyword function failed")),
              "ki": kw("ki", 1, preset={"instance": "own-instance"}), "kv": kw("kv", 1, preset={"validator": "own-keyword"}),
              "ks": kw("ks", 1, preset={"schema": "own-schema", "validator_value": "own-value"}),
+             # an inner error may carry JSON null / no keyword where others carry values: a nested `false` schema (validator None), `const: null`
+             # (validator_value None), a null instance; None and other falsy values are values, not "unset"
+             "kz": kw("kz", 1, preset={"validator": None, "validator_value": None, "instance": None, "schema": False}),
+             "ke": kw("ke", 1, preset={"validator": "", "validator_value": 0, "instance": [], "schema": {}}),
              "kd1": lambda validator, value, instance, schema: iter([VE("same message")]),
              "kd2": lambda validator, value, instance, schema: iter([VE("same message")])}
     table.update(extra_validators or {})
@@ -122,6 +126,14 @@ def dispatch_eval(prog):
             if any(got[f] is not want[f] and got[f] != want[f] for f in want):
                 out["stamp"] = "an error that arrives with only %s set leaves the dispatcher with %r; every field is filled exactly when it is still unset" % (
                     sorted(kept), {f: got[f] for f in sorted(got)})
+        for k, kept in (("kz", {"validator": None, "validator_value": None, "instance": None, "schema": False}),
+                        ("ke", {"validator": "", "validator_value": 0, "instance": [], "schema": {}})):
+            e = run({k: 5})[0]
+            got = {f: g(e, f) for f in kept}
+            if any(got[f] is not kept[f] and (got[f] != kept[f] or type(got[f]) is not type(kept[f])) for f in kept):
+                out["stamp"] = ("an error that arrives with %r (the error of a nested `false` schema has no keyword, `const: null` has the value null, a null "
+                                "instance is an instance) leaves the dispatcher with %r: None and other falsy values are values, only the unset marker is "
+                                "filled in" % (kept, got))
         for k in ("if", "$ref"):
             e = run({k: "v"})[0]
             if list(g(e, "schema_path")):
